@@ -218,3 +218,38 @@ Example client_example :
   let s := krun true 2 [KIssue; KIssue; KIssue; KRespond 1; KTimeout 0; KRespond 1; KIssue; KRespond 0] in
   map (st s) [0; 1; 2; 3] = [Rejected; Fulfilled 1; Fulfilled 2; Fulfilled 3].
 Proof. vm_compute. reflexivity. Qed.
+
+(* ---- the hand-over protocol: no request is left queued beside an idle connection ---- *)
+Definition hinv (s : hstate) : Prop := 0 < h_queue s -> 0 < h_idle s -> 0 < h_toproc s.
+
+Lemma hstep_inv s e : hinv s -> hinv (hstep true s e).
+Proof.
+  unfold hinv. intros H. destruct e; cbn [hstep].
+  - destruct (h_idle s) as [|i] eqn:Ei; cbn; lia.
+  - destruct (h_idle s) as [|i] eqn:Ei; cbn; lia.
+  - destruct (h_toenq s) as [|t]; cbn; lia.
+  - destruct (h_busy s) as [|b]; cbn; lia.
+  - destruct (h_toproc s) as [|p] eqn:Ep; cbn; lia.
+Qed.
+
+Lemma hrun_inv m evs : hinv (hrun true m evs).
+Proof.
+  unfold hrun. assert (G : forall s, hinv s -> hinv (fold_left (hstep true) evs s)).
+  { induction evs as [|e evs IH]; intros s H; [exact H|]. cbn [fold_left]. apply IH, hstep_inv, H. }
+  apply G. unfold hinv. cbn. lia.
+Qed.
+
+(* any number of connections, any interleaving of any number of threads: never stuck *)
+Lemma handover_never_stuck m evs : h_stuck (hrun true m evs) = false.
+Proof.
+  pose proof (hrun_inv m evs) as H. unfold hinv in H. unfold h_stuck.
+  destruct (Nat.ltb_spec 0 (h_queue (hrun true m evs))) as [Hq|Hq]; cbn [andb]; [|reflexivity].
+  destruct (Nat.ltb_spec 0 (h_idle (hrun true m evs))) as [Hi|Hi]; cbn [andb]; [|reflexivity].
+  specialize (H Hq Hi). destruct (Nat.eqb_spec (h_toproc (hrun true m evs)) 0) as [E|E]; [lia|reflexivity].
+Qed.
+
+(* without the second look (the pinned code): A in flight, B finds the connection busy, A completes and its thread
+   finds the queue empty, B is queued *)
+Lemma handover_stuck_without_recheck :
+  h_stuck (hrun false 1 [HPickOk; HPickFail; HRelease; HProcess; HEnqueue]) = true.
+Proof. vm_compute. reflexivity. Qed.
